@@ -328,6 +328,70 @@ func scenario(c conf, bound int) schk.Scenario {
 	}
 }
 
+// crowdScenario: n unbuffered subscriptions, all but the `idle` ones with a receiver that keeps
+// receiving, one asynchronous publisher (Pub / PubSlice), no timeout. A subscriber that nobody receives
+// from may keep its own hand-off waiting for ever, but it must not keep the event from any subscriber
+// that IS being received from (more subscribers than any internal pool of sender goroutines).
+func crowdScenario(variant string, n int, idle []int, bound int) schk.Scenario {
+	return crowdScenarioB(variant, n, 0, idle, bound)
+}
+
+// crowdScenarioB: the same with subscriptions of buffer size buf (with a buffer of 1 and a two-event
+// PubSlice an idle subscriber takes the first event into its buffer and keeps the second one waiting).
+func crowdScenarioB(variant string, n, buf int, idle []int, bound int) schk.Scenario {
+	isIdle := map[int]bool{}
+	for _, j := range idle {
+		isIdle[j] = true
+	}
+	return schk.Scenario{
+		Name: fmt.Sprintf("crowd/%s/%d-subscribers(buffer %d)/nobody-receives-from=%v", variant, n, buf, idle), Bound: bound, Delay: true, RaceBound: -2, ExpectDeadlock: true, MaxSteps: 40000 + 60*n,
+		Schedules: map[bool]int{false: 0, true: 1}[n > 100],
+		Body: func(s *vrt.Sched) any {
+			r := &rec{c: conf{variant: variant}, ps: &chans.PubSub[int]{}}
+			for j := 0; j < n; j++ {
+				r.subs = append(r.subs, r.ps.SubBuf(buf))
+			}
+			r.got = make([][]int, n)
+			r.closed = make([]bool, n)
+			s.Spawn("publisher", r.publisher)
+			for j := 0; j < n; j++ {
+				j := j
+				if !isIdle[j] {
+					s.Spawn(fmt.Sprint("recv", j), func() { r.receiver(j) })
+				}
+			}
+			return r
+		},
+		Check: func(x *vrt.Exec, obs any) (*schk.Fail, string) {
+			r := obs.(*rec)
+			if x.Panic != "" {
+				return schk.Failf("panic:other|"+variant+"|crowd", "the process would die: %q", x.Panic), ""
+			}
+			senders := 0
+			for _, b := range x.Blocked {
+				if !strings.Contains(b, "(recv") {
+					senders++
+				}
+			}
+			if senders > len(idle)*len(events(variant)) || !r.returned {
+				return schk.Failf("stuck", "%d subscribers, nobody receives from %v: at quiescence %d threads other than receivers are blocked (returned=%v); at most one hand-off per event and idle subscriber may wait", n, idle, senders, r.returned), ""
+			}
+			for j := 0; j < n; j++ {
+				if isIdle[j] {
+					continue
+				}
+				want := events(variant)
+				got := append([]int{}, r.got[j]...)
+				sort.Ints(got) // the asynchronous publishers promise no order
+				if fmt.Sprint(got) != fmt.Sprint(want) {
+					return schk.Failf("event-lost", "%d subscribers, nobody receives from %v: subscriber %d, which is being received from, got %v, want %v", n, idle, j, r.got[j], want), ""
+				}
+			}
+			return nil, "ok"
+		},
+	}
+}
+
 func main() {
 	r := ev.Start("C10")
 	var scs []schk.Scenario
@@ -400,6 +464,21 @@ func main() {
 			if len(lz.bufs) == 1 {
 				scs = append(scs, scenario(c, ev.Pick(r, 2, 3)))
 			}
+		}
+	}
+	for _, variant := range []string{"Pub", "PubSlice"} {
+		for _, n := range ev.Pick(r, []int{3, 1100}, []int{3, 70, 1100, 2049, 4100}) {
+			if n > 100 {
+				// thousands of model threads: buffered subscriptions (no rendezvous partner search), and
+				// the two-event publisher, whose second event an idle subscriber keeps waiting
+				if variant == "PubSlice" {
+					scs = append(scs, crowdScenarioB(variant, n, 1, []int{0, n - 1}, 0))
+				} else if r.Thorough() {
+					scs = append(scs, crowdScenarioB(variant, n, 0, []int{0, n - 1}, 0))
+				}
+				continue
+			}
+			scs = append(scs, crowdScenario(variant, n, []int{0}, 1), crowdScenario(variant, n, []int{n / 2, n - 1}, 1), crowdScenario(variant, n, nil, 1))
 		}
 	}
 	if os.Getenv("VERIF_SHARD") == "" && os.Getenv("VERIF_REPLAY") == "" {
